@@ -19,6 +19,7 @@ type HSpec struct {
 	Unwind   [2]int   // loop bound quick/thorough
 	Budget   [2]int   // wall-clock budget in seconds quick/thorough
 	Models   []string // "lib.Func=vpModelFunc" replacements
+	Validate []string // native model validations to run (names registered with vpRegisterModelCheck)
 	What     string   // one line: what it decides
 }
 
@@ -57,6 +58,7 @@ type PropRun struct {
 	Extra    []ExtraResult
 	Started  time.Time
 	Inconclusive []string
+	ModelValidation []string
 }
 
 type ExtraResult struct {
